@@ -79,6 +79,11 @@ def run_pubsub(ctx, relevant, line_oracle=None, sat_share=1):
         return None if k in ("loan-out-of-memory", "probe-ended-by-OutOfMemory") else k
     core.diff_component(ctx, "pubsub", ["gen", "--seed", ctx.seed + 23, "--cases", 800 * sat_share if quick else 15000, "--len", 100 if quick else 160, "oom"], cl,
                         label="pubsub.prealloc-override", line_oracle=no_oom)
+    # publishers with a backpressure handler that answers DiscardDataAndFail (no safe overflow → the handler is asked for every full buffer of a
+    # connected subscriber): same state transitions as the proved `send`, the call reports UnableToDeliver; the partially failed send is the
+    # early-return path of Sender::deliver_offset
+    core.diff_component(ctx, "pubsub", ["gen", "--seed", ctx.seed + 37, "--cases", 600 * sat_share if quick else 12000, "--len", 100 if quick else 160, "bph"], cl,
+                        label="pubsub.backpressure-handler", line_oracle=line_oracle)
     # slice payloads on a dynamically growing data segment (PowerOfTwo strategy, initial slice length 1, loan lengths that mostly grow):
     # the same model — the length is not observable in it; publishers are not dropped in this mode (lost-chunk limitation of dynamic segments)
     core.diff_component(ctx, "pubsub", ["gen", "--seed", ctx.seed + 17, "--cases", 1200 if quick else 20000, "--len", 70 if quick else 120, "slice"], cl,
